@@ -8,6 +8,7 @@ re="${1:-.*}"
 for d in seeded/C*/; do
   name=$(basename "$d"); [[ "$name" =~ $re ]] || continue
   id=${name%%-*}
+  grep -q '"obsolete"' "$d/meta.json" 2>/dev/null && { echo "$name: obsolete (skipped)"; continue; }
   (cd "$R" && patch -p1 -s --no-backup-if-mismatch < "$OLDPWD/$d/patch.diff") >/dev/null 2>&1 || { echo "$name: DOES-NOT-APPLY"; (cd "$R" && git checkout -- . 2>/dev/null; git clean -fdq 2>/dev/null); continue; }
   out=$(timeout 1500 ./check "$id" quick 2>&1); rc=$?
   (cd "$R" && patch -p1 -R -s --no-backup-if-mismatch < "$OLDPWD/$d/patch.diff") >/dev/null 2>&1
